@@ -5,10 +5,35 @@ ONLY property theorems live here (helper lemmas: InToto/Proofs/Json.lean).
 Model: InToto/Model/Json.lean (`render`, `sortKeys`, strict parser `parseJ`),
 InToto/Model/Metadata.lean (`canonPayload`, `payloadBytes`).
 -/
+import InToto.Proofs.Json
 import InToto.Model.Metadata
 
 namespace InToto.C11
-open InToto InToto.Json InToto.Metadata
+open InToto InToto.Json InToto.JsonProofs InToto.Metadata
+
+/-- C11 (DSSE): the payload bytes are valid JSON — a strict RFC 8259 parser reads them back to
+    exactly the (key-sorted) JSON value of the metadata that was set, whatever characters its
+    strings contain. -/
+theorem dsse_payload_parses_back (p : Payload) (s : Str) (h : payloadBytes p = some s) :
+    parseJ s = some (sortKeys p.toJ) :=
+  parse_render_strict (sortKeys p.toJ) s h
+
+/-- C11 (legacy): the canonical form is uniquely readable ... -/
+theorem canonical_reads_back (p : Payload) (s : Str) (h : canonPayload p = some s) :
+    parseLenient s = some (sortKeys p.toJ) :=
+  parse_render_lenient false (sortKeys p.toJ) s h
+
+/-- ... hence two payloads with the same signed bytes have the same JSON value up to member
+    order: different content gives different bytes. -/
+theorem canonical_injective (p q : Payload) (s : Str)
+    (hp : canonPayload p = some s) (hq : canonPayload q = some s) :
+    sortKeys p.toJ = sortKeys q.toJ :=
+  render_injective false _ _ s hp hq
+
+/-- C11: content that cannot be represented is refused, never signed approximately:
+    bytes exist exactly when every number in the value is an int64 integer. -/
+theorem refuse_or_exact (v : JVal) : (renderCanon v).isSome = true ↔ Renderable (sortKeys v) :=
+  render_isSome_iff false (sortKeys v)
 
 /-- non-integral number in a by-product: no signed bytes -/
 theorem refuse_nonintegral_example : renderCanon (.obj [(lit% "x", .frac (lit% "1.5"))]) = none := by decide
